@@ -183,6 +183,7 @@ def main(argv):
             "under races is the conjunction of C02/C03 (each thread tests its own handle against 1). Not decided: run-time identity of the returned value."
             ' Added later: R-FREE-TYPE as a premise ("the allocation is released": the sole owner gives the block back as the type and layout it was handed out as); the payload read is recognised by pointer normal form.'
             ' R-DESTROY as a premise; R-UNIQUE-VIEW; the gate family is every function returning a UniqueArc.'
+            ' Round thirteen/fourteen: R-RACY-ASSERT inside R-UNW (seed: `debug_assert!(count > 1)` with the handle disarmed); c12.union_dispatch as a premise.'
         ),
         rule_text="instances = (function, path-set | no-destructor | moves-data | decline)",
         trusted_base=["rustc nightly MIR (moves, elaborated drops) and trait resolution", "std model table (Result::map / unwrap_or_else call their callable at most once)"],
